@@ -80,8 +80,12 @@ CLAIMED = {
         note=TB, technique="Coq: capacity clauses of the wp specifications; capacity/as_ptr/allocation monitors", design='§7 C11'),
     'C12': dict(text=T("Theorems: C12_push_growth_is_amortized_growth / C12_reserve_growth_... — whenever an append or reserve issues an allocator request the new capacity is exactly "
         "amortized_growth(len, additional) as translated from heap_buffer.rs on this run; C12_growth_bounds — that value is >= len + len/2, >= len + additional and <= their maximum; "
-        "C12_growth_formula. The O(log n) push-loop bound is not stated as a theorem (see DESIGN)."),
-        note=TB + " Wall-clock cost is not addressed.", technique="Coq: arithmetic over the regenerated growth formula + wp specifications; growth monitors", design='§7 C12'),
+        "C12_growth_formula. Amortisation: C12_push_loop_follows_gsim — every history of successful non-empty appends to an exclusively owned string follows the bookkeeping machine "
+        "GrowSim.gstep (length, capacity, allocator requests) exactly, by induction over the history; C12_gsim_log_requests_linear_copy — for every list of piece sizes, after k requests "
+        "3^((k-1)/2) <= 2^((k-1)/2) * len and the bytes copied by all growth steps are <= 6 * len; C12_push_loop_log_requests combines them for the modelled crate; "
+        "C12_gsim_4MiB_at_most_76_requests. Run-time tie: push loops (widths 1-4 and mixed patterns, up to 1 MiB quick / 8 MiB thorough) on the real crate behind the shim allocator must "
+        "follow the extracted gstep event for event, and are checked directly against the per-growth bounds."),
+        note=TB + " Wall-clock cost is not addressed.", technique="Coq: arithmetic over the regenerated growth formula + wp specifications + potential-style invariant over append histories; growth monitors; push-loop differential run", design='§7 C12'),
     'C13': dict(text=T("Theorem C13_shrink: shrink_to/shrink_to_fit change no text, never fail to keep len <= capacity <= max(old, 16), convert to inline when max(len, m) <= 16, do nothing "
         "when the capacity is already <= max(len, m), and otherwise land exactly on max(len, m) with an exclusively owned buffer - shared or not (shrink_post)."),
         note=TB, technique="Coq: wp specification of shrink_to (all four paths); shrink monitors", design='§7 C13'),
